@@ -1,4 +1,5 @@
 """C09 — column aggregates: correspondence of the implementation with the Coq models."""
+import vlib
 from harness import fam_raops, fam_ra2
 TRUSTED = fam_raops.TRUSTED
 ASSUME = ["integer element values (element operations and result dtypes are numpy's own; floats only with exactly representable results)"]
@@ -6,3 +7,7 @@ RULE = "operations: colsum colcounts; " + fam_raops.RULE
 def run(R, tier, rng):
     fam_raops.run_family(R, tier, rng, set("colsum colcounts".split()))
     fam_ra2.run_c09(R, tier, rng)
+
+
+def translator_tie():
+    return vlib.translator_tie(["view"])
